@@ -190,8 +190,8 @@ CHECKS["C02"] = {
     "exhaustive_claim": True,
     "floors": {"enumerated_depth_le_2": 10000, "forms_compared": 100000},
     "rule": "scope skeletons over names a, b, c: at each of up to 4 nested procedures each name is a parameter, the rest parameter, an internal "
-            "definition or free (54 valid combinations per level). Enumerated completely: depth 1 x 4 invocation patterns x 4 assignment menus; "
-            "depth 2 all 54^2 kind pairs x 4 invocation patterns (assignment menu hashed in quick, all 4 in thorough); thorough also all 54^3 kind "
+            "definition or free (54 valid combinations per level). Enumerated completely: depth 1 x 4 invocation patterns x 5 assignment menus (none, before / after closure creation, mixed, and after creation through procedures that only write the variable); "
+            "depth 2 all 54^2 kind pairs x 4 invocation patterns (assignment menu hashed in quick, all 5 in thorough); thorough also all 54^3 kind "
             "triples at depth 3 (pattern/menu hashed); depth 3-4 sampled. The probe body logs every read of every name before and after creating the "
             "inner closure and after assignments; closures are invoked inside the creator, after it returned, twice, and created in a loop and "
             "invoked out of order. exhaustive refers to the enumerated part. Every program is non-trivial; distinct = distinct skeletons.",
@@ -391,8 +391,8 @@ CHECKS["C06"] = {
     "timeout_thorough": 4 * 3600,
     "floors": {"builtin_calls": 100000, "errors_returned_and_rendered": 50000, "canaries_ok": 100000, "texts_evaluated": 50000, "programs": 100, "cells_evaluated": 50,
                "sliced_erroring_programs": 100},
-    "rule": "case space (split over shards, run in sandboxed children): (1) every global name x arity 0 and 1 x a 62-entry palette of value-producing "
-            "expressions (every kind and boundary the property names); (2) arity 2: 400 seeded pairs per name (quick) / all 62^2 pairs (thorough), "
+    "rule": "case space (split over shards, run in sandboxed children): (1) every global name x arity 0 and 1 x a 66-entry palette of value-producing "
+            "expressions (every kind and boundary the property names); (2) arity 2: 400 pairs per name in quick (all 225 ordered pairs of 15 numeric boundary values incl. i64 extremes, -1, infinities, NaN and the radixes 8 and 16, plus 175 seeded pairs) / all 66^2 pairs (thorough), "
             "sometimes passing the same object twice; (3) arities 3-5 sampled; (4) fuzz texts (random Unicode, token soup, mutated prelude slices, "
             "mutated generated programs) through eval_text datum by datum; (5) 22 circular-structure programs (list?, length, equal?, display, write, "
             "as the value of an evaluation) and ~130 programs about nesting <= 64, sizes <= 10^6, radix / exponent / syntax edge cases; (6) "
